@@ -645,3 +645,77 @@ def gen_agents(r: random.Random, profile: str = "agents") -> Dict[str, Any]:
             turns.append(ops)
         w.scripts[a["name"]] = turns
     return w.scenario()
+
+
+# ---------------------------------------------------------------------- scale: sample-sized worlds
+def gen_scale(r: random.Random, profile: str = "scale") -> Dict[str, Any]:
+    """worlds of the size of the shipped samples: dozens to a hundred built-in agents, hundreds of steps
+    (several storage/generation chunks of 100), long time-to-live, next to a few scripted agents."""
+    w = World(r)
+    n_m = r.choice([1, 1, 2])
+    for i in range(n_m):
+        w.add_market(f"M{i}", r.choice([0.00001, 0.01, 1.0]), 300.0, vol=r.choice([0.0, 0.001, 0.005]), drift=0.0,
+                     shares=25000)
+    names = [m["name"] for m in w.markets]
+    w.add_scripted("SA", r.randint(1, 4), False, cash=10 ** 9, asset=10 ** 6)
+    if r.random() < 0.5:
+        w.add_scripted("SH", 1, True, cash=10 ** 9, asset=10 ** 6)
+    d = dict(FCN_SETTINGS)
+    d.update({"numAgents": r.choice([30, 60, 100]), "markets": names, "timeWindowSize": r.choice([[100, 200], [20, 60]]),
+              "noiseScale": 0.001, "orderMargin": [0.0, 0.1], "chartWeight": {"expon": [0.0]} if r.random() < 0.5 else {"expon": [0.3]}})
+    w.add_group("FCN", d)
+    if r.random() < 0.4:
+        w.add_group("MM", {"class": "MarketMakerAgent", "numAgents": 1, "markets": [names[0]], "cashAmount": 10 ** 7, "assetVolume": 1000,
+                           "targetMarket": names[0], "netInterestSpread": 0.02, "orderTimeLength": r.choice([2, 20])})
+    warm = r.choice([0, 50, 100])
+    if warm:
+        w.add_session(warm, True, False, max_normal=r.choice([1, 3]), max_hft=1, rate=1.0)
+    w.add_session(r.choice([150, 300, 600]), True, True, max_normal=r.choice([1, 1, 2, 3]), max_hft=r.choice([1, 2]), rate=r.choice([1.0, 0.3]))
+    if r.random() < 0.3:
+        w.add_session(r.choice([50, 120]), True, True, max_normal=2, max_hft=1, rate=1.0)
+    steps = w.total_steps()
+    for a in w.scripted:
+        turns = []
+        for _ in range(steps * (2 if a["hft"] else 1) + 2):
+            if r.random() < 0.85:
+                turns.append([])
+                continue
+            ops = []
+            for _ in range(r.randint(1, 2)):
+                mi = r.randrange(len(a["markets"]))
+                u = r.random()
+                if u < 0.2:
+                    ops.append({"k": "cancel", "m": mi, "ref": r.choice(["live", "live", "any"]), "nth": r.randrange(50)})
+                elif u < 0.3:
+                    ops.append({"k": "market", "m": mi, "side": r.choice("bs"), "vol": r.choice([1, 5, 50, 2000])})
+                else:
+                    ops.append({"k": "limit", "m": mi, "side": r.choice("bs"), "px": {"mode": "rel", "f": 1.0 + r.choice([-1, 1]) * r.choice([0.0, 0.002, 0.01, 0.05])},
+                                "vol": r.choice([1, 3, 40, 10 ** 4]), **({"ttl": r.choice([1, 10, 150, 400])} if r.random() < 0.6 else {})})
+            turns.append(ops)
+        w.scripts[a["name"]] = turns
+    if r.random() < 0.4:
+        tgt = names[0]
+        w.cfg["EVS"] = {"class": "FundamentalPriceShock", "target": tgt, "triggerTime": r.randrange(0, 100), "priceChangeRate": r.choice([-0.1, 0.1]),
+                        "shockTimeLength": r.randint(1, 3), "enabled": True}
+        w.sessions[-1].setdefault("events", []).append("EVS")
+    if r.random() < 0.3:
+        w.cfg["EVH"] = {"class": "TradingHaltRule", "targetMarkets": [names[0]], "triggerChangeRate": 0.05, "haltingTimeLength": r.choice([10, 100]), "enabled": True}
+        w.sessions[-1].setdefault("events", []).append("EVH")
+    return w.scenario()
+
+
+def gen_crowd(r: random.Random, profile: str = "crowd") -> Dict[str, Any]:
+    """large populations (hundreds of mostly passive scripted agents) for the consultation rules."""
+    w = World(r)
+    basic_markets(r, w, 1)
+    n = r.choice([129, 130, 200, 257, 400, 700])
+    w.add_scripted("SA", n, False)
+    nh = r.choice([0, 0, 2, 40, 150])
+    if nh:
+        w.add_scripted("SH", nh, True)
+    for i in range(r.randint(1, 2)):
+        w.add_session(r.randint(2, 8), True, r.random() < 0.7, max_normal=r.choice([1, 2, 5, n, n + 1]),
+                      max_hft=r.choice([1, 2, nh, nh + 1]), rate=r.choice([1.0, 0.5, 0.0]))
+    p_empty = r.choice([0.9, 0.98, 0.995, 1.0])
+    fill_scripts(r, w, p_empty=p_empty, p_cancel=0.1, p_market=0.05, p_ttl=0.3, max_ops=2, hft_mult=2)
+    return w.scenario()
